@@ -274,6 +274,14 @@ retry:
         if (check_status == status::OK_RETRY_AFTER_FB) {
             goto retry; // NOLINT
         }
+        if constexpr (!is_inlinable<ValueType>()) {
+            if (kl <= sizeof(key_slice_type) && vp == nullptr) {
+                // removes are not counted in the node version: a slot cleared by
+                // a concurrent remove is seen under an unchanged version.
+                clean_up_tuple_list_nvc();
+                goto retry; // NOLINT
+            }
+        }
         if (kl > sizeof(key_slice_type)) {
             std::string_view arg_l_key;
             scan_endpoint arg_l_end{};
